@@ -1,3 +1,6 @@
 SPECIFICATION Spec
+CONSTANT NbK = 2
+CONSTANT SampleN = 3000
+CONSTANT InitVectors <- MCInitVectors
 INVARIANT AsBuiltHolds
 CHECK_DEADLOCK FALSE
